@@ -282,6 +282,7 @@ type Parser struct {
 // Thread Safety: NOT thread-safe - use separate parser instances per goroutine.
 func (p *Parser) Parse(tokens []token.Token) (*ast.AST, error) {
 	p.tokens = tokens
+	p.positions = nil // no position mapping for this input: drop the one of an earlier ParseWithPositions
 	p.currentPos = 0
 	if len(tokens) > 0 {
 		p.currentToken = tokens[0]
@@ -547,6 +548,7 @@ func (p *Parser) ParseContext(ctx context.Context, tokens []token.Token) (*ast.A
 	defer func() { p.ctx = nil }() // Clear context when done
 
 	p.tokens = tokens
+	p.positions = nil // no position mapping for this input: drop the one of an earlier ParseWithPositions
 	p.currentPos = 0
 	if len(tokens) > 0 {
 		p.currentToken = tokens[0]
